@@ -9,7 +9,7 @@
             literals with m < 10^15 and s <= 290 (distinct such decimals are
             distinct doubles and print back as themselves).
    Errors : an exception of the real code is None. *)
-From Coq Require Import ZArith List Bool String Ascii.
+From Coq Require Import String Ascii ZArith List Bool.
 Import ListNotations.
 Open Scope Z_scope.
 
@@ -31,7 +31,7 @@ Fixpoint norm (m : Z) (s : nat) : dec :=
 
 Definition is_digit (c : Z) : bool := (48 <=? c) && (c <=? 57).
 (* value of a digit string, most significant first *)
-Definition value (l : str) : Z := fold_left (fun a c => 10 * a + (c - 48)) l 0.
+Definition dvalue (l : str) : Z := fold_left (fun a c => 10 * a + (c - 48)) l 0.
 
 (* k low decimal digits of n, most significant first (as characters) *)
 Fixpoint digs (k : nat) (n : Z) : str :=
@@ -158,9 +158,9 @@ Definition numeric (v : str) : bool :=
 Definition parse_float (p : str) : option dec :=
   if forallb (fun c => is_digit c || (c =? 46)) p then
     match split_on 46 p with
-    | [a] => if null a then None else Some (norm (value a) O)
+    | [a] => if null a then None else Some (norm (dvalue a) O)
     | [a; b] => if null a && null b then None
-                else Some (norm (value (a ++ b)) (length b))
+                else Some (norm (dvalue (a ++ b)) (length b))
     | _ => None
     end
   else None.
@@ -400,7 +400,7 @@ Definition int2volt (d : dict) : option (dec * Z) :=
       end
   end.
 
-(* re.findall(r"([0-9]* [0-9]* [0-9]* [0-9]* [0-9]*)", s): one attempt at the
+(* re.findall over the pattern  D* D* D* D* D*  (D = [0-9], separated by single blanks): one attempt at the
    head of s.  [0-9]* is greedy and a digit is never a blank, so the attempt is
    deterministic: longest digit run, blank, ... ; returns the five runs and the
    rest of the text. *)
@@ -441,12 +441,11 @@ Definition py_take {A} (n : Z) (l : list A) : list A :=
   if n <? 0 then firstn (Z.to_nat (Z.of_nat (length l) + n)) l else firstn (Z.to_nat n) l.
 (* np.float32(run): ValueError on "" *)
 Definition run_gain (r : option str) : option Z :=
-  match r with Some (c :: t) => Some (value (c :: t)) | _ => None end.
+  match r with Some (c :: t) => Some (dvalue (c :: t)) | _ => None end.
 
 (* one entry of the volts-per-bit vector *)
 Inductive conv :=
-| CG (g : dec)        (* range / maxint / g *)
-| CI                  (* range / maxint      (nidq analog sync, "no gain") *)
+| CG (g : dec)        (* range / maxint / g  (nidq analog sync: g = 1, "no gain") *)
 | C1.                 (* 1                   (digital sync) *)
 Inductive s2v_out :=
 | S2Imec (ap lf : list conv)
@@ -505,7 +504,7 @@ Definition s2v (d : dict) : option (dec * Z * s2v_out) :=
                       if (c0 <? 0) || (c1 <? 0) || (c2 <? 0) then None
                       else Some (rng, mi,
                                  S2Nidq (zrepeat (CG gmn) c0 ++ zrepeat (CG gma) c1 ++
-                                         zrepeat CI c2 ++ zrepeat C1 (dec_trunc c3)))
+                                         zrepeat (CG (1, O)) c2 ++ zrepeat C1 (dec_trunc c3)))
                   | _, _, _, _, _, _ => None
                   end
               end
